@@ -858,10 +858,12 @@ def rule_thread_handoff(text):
     for j in range(len(c)):
         if c.t(j) == tx and c.kind(j) == "id" and not (bo < j < bc) and j != ch - 5:
             raise Unsupported("the hand-off sender is used outside the helper thread: outside rule H")
-        if c.t(j) == rx and c.kind(j) == "id" and j != ch - 3 and j != cl + 2:
-            raise Unsupported("the hand-off receiver is used other than as the statement right after the spawn: outside rule H")
-    if not c.seq(cl + 2, rx, ".", "recv", "(", ")"):
-        raise Unsupported("the statement after the helper thread's spawn is not `%s.recv()`: outside rule H" % rx)
+    # the receiver is used exactly once: `RX.recv()` opens the statement right after the spawn, possibly behind `match` / `let PAT =`
+    # (tokens that call nothing), so that nothing of the caller runs between spawning the helper and blocking on it
+    uses = [j for j in range(len(c)) if c.t(j) == rx and c.kind(j) == "id" and j != ch - 3]
+    if len(uses) != 1 or uses[0] < cl + 2 or not c.seq(uses[0], rx, ".", "recv", "(", ")") \
+            or any(c.t(j) in ("(", ".", "{", "?", ";") for j in range(cl + 2, uses[0])):
+        raise Unsupported("the hand-off receiver is not used exactly once, as `%s.recv()` opening the statement right after the spawn: outside rule H" % rx)
     body = c.text[c.end(bo):c.pos(bc)]
     edits = [
         (c.pos(ch), c.end(ch + 8), "vx_std_channel()"),
